@@ -78,7 +78,34 @@ def build(mod, spec):
     if spec.get("c") is not None:
         kw["c"] = getattr(mod, spec["c"]["cls"])(a=spec["c"]["a"])
     kw["cs"] = [getattr(mod, s["cls"])(a=s["a"]) for s in spec.get("cs", [])]
+    if spec.get("dv") is not None:  # a parameter whose declared default is the configuration NewC0(a=1)
+        kw["d"] = getattr(mod, spec["dv"]["cls"])(a=spec["dv"]["a"])
+    if spec.get("dl") is not None:  # ... and one whose declared default is the list [NewC1(a=1)]
+        kw["dl"] = [getattr(mod, s["cls"])(a=s["a"]) for s in spec["dl"]]
     return getattr(mod, spec["cls"])(**kw)
+
+
+def canonical_spec(spec, deprecated):
+    """the same job spelled with the replacement classes (only those deprecated *now*), and a parameter whose value is then
+    its declared default left unset: the property's "identifier its replacement would yield" """
+    def rep(name):
+        while name in deprecated:
+            name = {"Old2": "Old" + name[4:], "Old": "New" + name[3:]}["Old2" if name.startswith("Old2") else "Old"]
+        return name
+
+    def sub(s):
+        return None if s is None else dict(s, cls=rep(s["cls"]))
+
+    out = dict(spec, cls=rep(spec["cls"]), c=sub(spec.get("c")), cs=[sub(s) for s in spec.get("cs", [])])
+    if spec.get("dv") is not None:
+        out["dv"] = sub(spec["dv"])
+        if out["dv"] == {"cls": "NewC0", "a": 1}:
+            out["dv"] = None
+    if spec.get("dl") is not None:
+        out["dl"] = [sub(s) for s in spec["dl"]]
+        if out["dl"] == [{"cls": "NewC1", "a": 1}]:
+            out["dl"] = None
+    return out
 
 
 def init_tasks(mod, spec):
@@ -142,8 +169,11 @@ def dir_of_data(ws: Path, d):
     return None
 
 
-def run_experiment(real, mod, ws, name, specs, idxs):
-    """submit the given specs in one experiment; returns per job (index, relpath of the job, launched?, final state)"""
+def run_experiment(real, mod, ws, name, specs, idxs, canonical=None):
+    """submit the given specs in one experiment; returns per job (index, relpath of the job, launched?, final state);
+    canonical: set of deprecated classes -> the jobs are submitted in their replacement spelling"""
+    if canonical is not None:
+        specs = [canonical_spec(s, canonical) for s in specs]
     real.launched.clear()
     res = []
     owner = {}
@@ -277,23 +307,28 @@ def run_case(real, root: Path, case):
     try:
         mod = cfgbuild.load_library(case["lib"], root)
         specs = case["jobs"]
-        state = {"next": 0, "spec_of": {}, "nrun": 0}
+        state = {"next": 0, "spec_of": {}, "nrun": 0, "deprecated": set()}
         for op in case["ops"]:
             r = {"op": op}
             k = op["op"]
             if k == "run" or k == "resubmit":
                 state["nrun"] += 1
                 before = snapshot(ws)
-                res, owner = run_experiment(real, mod, ws, f"e{state['nrun']}", specs, op["jobs"])
+                res, owner = run_experiment(real, mod, ws, f"e{state['nrun']}", specs, op["jobs"],
+                                            canonical=set(state["deprecated"]) if op.get("canonical") else None)
                 tag_new_dirs(ws, state, owner)
                 r.update(before=before, jobs=res)
             elif k == "deprecate":
                 for name in op["classes"]:
                     getattr(mod, name).__getxpmtype__().deprecate()
+                    state["deprecated"].add(name)
                 r["type_ids"] = {c["name"]: str(getattr(mod, c["name"]).__getxpmtype__().identifier) for c in case["lib"]["classes"]}
             elif k == "fix":
                 r["before"] = snapshot(ws)
-                r["expected"] = {str(d): expected_key(mod, specs[i]) for d, i in state["spec_of"].items() if i is not None}
+                # the new identifier of a job = the identifier of its replacement spelling (what the property promises);
+                # `as_spelled` = the identifier of the spelling the job was submitted with (must be the same: first sentence of C20)
+                r["expected"] = {str(d): expected_key(mod, canonical_spec(specs[i], state["deprecated"])) for d, i in state["spec_of"].items() if i is not None}
+                r["as_spelled"] = {str(d): expected_key(mod, specs[i]) for d, i in state["spec_of"].items() if i is not None}
                 globs, interrupted, err = do_fix(ws, op)
                 r.update(globs=globs, interrupted=interrupted, cmd_error=err)
             elif k in ("rmdir", "rmparams", "breakparams"):
@@ -465,9 +500,27 @@ def main_versions(data):
     root.mkdir(parents=True, exist_ok=True)
     mods = [cfgbuild.load_library(lib, root) for lib in data["libs"]]  # (re)writes <root>/<pkg>/__init__.py: version 1 or 2
     out = []
+    import signal
+
+    class CaseTimeout(BaseException):  # not an Exception: the per-step handlers of save_case / load_case let it through
+        pass
+
+    def on_alarm(signum, frame):
+        raise CaseTimeout("identifier computation / save / load of the graph exceeded its time limit")
+
+    signal.signal(signal.SIGPROF, on_alarm)
     for case in data["cases"]:
         f = save_case if data["mode"] == "save" else load_case
-        out.append(f(mods[case["lib"]], root, case))
+        # the identifier computation of the real code is exponential on some cyclic graphs (a cost, not a C20 matter): such a
+        # case is recorded as an error (bounded share) instead of stalling the check.  The limit is CPU time of this process
+        # (ITIMER_PROF), not wall time: a loaded machine must not turn into case errors
+        signal.setitimer(signal.ITIMER_PROF, 12)
+        try:
+            rec = f(mods[case["lib"]], root, case)
+        except CaseTimeout as e:
+            rec = {"error": f"TimeoutError: {e}", "saved": {}, "old": None, "variants": {}, "wrap": [], "load_errors": {}}
+        signal.setitimer(signal.ITIMER_PROF, 0)
+        out.append(rec)
     Path(sys.argv[2]).write_text(json.dumps(out))
 
 
@@ -486,7 +539,7 @@ def main():
     try:
         real = Real()
         for ci, case in enumerate(data["cases"]):
-            signal.alarm(90)
+            signal.alarm(240)  # wall time: generous, the machine may be heavily loaded
             try:
                 rec = run_case(real, root, case)
             except TimeoutError as e:
